@@ -71,6 +71,17 @@ Outcome runStats(const Plan & p, Ctx & c)
   if (p.viaSetWindowSize) {avg->setWindowSize(W);}
   if (variance && (double)M * (double)M > 2147483647.0) {SIM_PROBE("variance_scale_factor_squared_exceeds_32_bits");}
 
+  // a bystander: another statistic object fed 1, 2, 3, ... ; nothing done to the subject may disturb it
+  romea::core::OnlineVariance bystander(1.0, 3); uint64_t byN = 0;
+  auto checkBystander = [&]() -> Outcome {
+      ++byN; bystander.update((double)byN);
+      double wantAvg = byN >= 3 ? (double)byN - 1.0 : (byN == 2 ? 1.5 : 1.0);
+      if (bystander.getAverage() != wantAvg || (byN >= 3 && (bystander.getVariance() != 1.0 || !bystander.isAvailable()))) {
+        return Outcome::fail("bystander-statistic-changed", fmt("another OnlineVariance object fed 1..%llu reports average %.17g variance %.17g while the subject is exercised",
+                 (unsigned long long)byN, bystander.getAverage(), bystander.getVariance()));
+      }
+      return Outcome::pass();
+    };
   std::deque<double> win;      // the model: last W samples since the last reset
   uint64_t sinceReset = 0, totalUpdates = 0, opNo = 0;
   bool lastWasReset = false, everReset = false;
@@ -142,6 +153,7 @@ Outcome runStats(const Plan & p, Ctx & c)
   {Outcome o = observe("construction"); if (!o.ok) {return o;}}
   for (const Op & op : p.ops) {
     ++opNo;
+    if (op.kind != 2) {Outcome ob = checkBystander(); if (!ob.ok) {return ob;}}
     if (op.kind == 3) {
       // the copy constructor must carry the whole window over: the history continues on the copy
       SIM_COUNT("op.copy_construct");
